@@ -422,7 +422,35 @@ def step_lean(R, pid, thorough_extra=True, extra=()):
     return lc["ok"]
 
 
+def loopback_timewait():
+    """number of TCP sockets in TIME-WAIT (each can hold an ephemeral loopback port for a minute)"""
+    try:
+        n = 0
+        for f in ("/proc/net/tcp", "/proc/net/tcp6"):
+            with open(f) as fh:
+                next(fh)
+                for line in fh:
+                    if line.split()[3] == "06":
+                        n += 1
+        return n
+    except (OSError, IndexError, StopIteration):
+        return 0
+
+
+def wait_for_ports(limit=12000, max_wait=90):
+    """The families open many short loopback connections. When checks run side by side (or right after each other)
+    the ephemeral port range of the host can run out, which would show up as connection errors that have nothing to
+    do with the code under test. Wait until the backlog of TIME-WAIT sockets has drained."""
+    t0 = time.time()
+    while loopback_timewait() > limit and time.time() - t0 < max_wait:
+        time.sleep(2)
+    return round(time.time() - t0, 1)
+
+
 def step_harness(R):
+    waited = wait_for_ports()
+    if waited > 1:
+        R.coverage["waited_for_loopback_ports_s"] = waited
     exe, log = build_harness(R.tmp)
     if exe is None:
         R.harness_log = log
